@@ -12,7 +12,7 @@
  *                after the image — is unchanged.  The destination lives inside guard rows so that the
  *                out-of-bounds write of the direct-fill shortcut (finding 4) is observed, not a crash.
  * All under the implementation chains PIXMAN_DISABLE = "", "ssse3", "sse2 ssse3", "mmx sse2 ssse3",
- * "fast mmx sse2 ssse3".
+ * "fast mmx sse2 ssse3" and "fast" (SIMD fills without the C fast path, which alone fills 1 bpp).
  */
 #include "vf.h"
 #include <stddef.h>
@@ -272,10 +272,25 @@ static const int ALL_OPS[] = {
 typedef struct {
     uint8_t *alloc; size_t size; uint8_t *bits; int stride;   /* stride in bytes */
     pixman_image_t *im;
+    int acc;                                  /* storage reachable only through scrambling read/write callbacks */
+    pixman_image_t *amap; uint8_t *amap_buf;  /* optional a8 alpha map (IW x IH, stride AM_STRIDE, with guard rows) */
 } dimg;
+#define AM_STRIDE 16
+#define AM_SIZE (AM_STRIDE * (IH + 2 * GROWS))
+
+static uint64_t acc_reads, acc_writes;
+static uint32_t acc_read(const void *p, int size)
+{
+    uint32_t v = 0; acc_reads++;
+    memcpy(&v, p, (size_t)size); v ^= 0x5a5a5a5au;
+    return size >= 4 ? v : v & ((1u << (8 * size)) - 1);
+}
+static void acc_write(void *p, uint32_t v, int size) { acc_writes++; v ^= 0x5a5a5a5au; memcpy(p, &v, (size_t)size); }
+static void dimg_scramble(dimg *d) { for (size_t i = 0; i < d->size; i++) d->alloc[i] ^= 0x5a; }
 
 static void dimg_make(dimg *d, pixman_format_code_t code, int bpp, const pixman_indexed_t *pal, const clipdef_t *clip)
 {
+    d->acc = 0; d->amap = NULL; d->amap_buf = NULL;
     d->stride = c10_min_stride(bpp, IW) + (bpp == 128 ? 16 : 4);
     d->size = (size_t)d->stride * (IH + 2 * GROWS);
     d->alloc = aligned_buf(d->size);
@@ -290,7 +305,16 @@ static void dimg_make(dimg *d, pixman_format_code_t code, int bpp, const pixman_
         pixman_region32_fini(&r);
     }
 }
-static void dimg_free(dimg *d) { pixman_image_unref(d->im); free(d->alloc); }
+static void dimg_wrap(dimg *d, int wrap)      /* 1: accessors, 2: alpha map */
+{
+    if (wrap == 1) { d->acc = 1; pixman_image_set_accessors(d->im, acc_read, acc_write); }
+    if (wrap == 2) {
+        d->amap_buf = aligned_buf(AM_SIZE);
+        d->amap = pixman_image_create_bits(PIXMAN_a8, IW, IH, (uint32_t *)(d->amap_buf + AM_STRIDE * GROWS), AM_STRIDE);
+        pixman_image_set_alpha_map(d->im, d->amap, 0, 0);
+    }
+}
+static void dimg_free(dimg *d) { pixman_image_unref(d->im); if (d->amap) pixman_image_unref(d->amap); free(d->amap_buf); free(d->alloc); }
 
 /* initial destination contents: deterministic, every pixel different; floats are sane values in [0,1] */
 static void fill_initial(uint8_t *init, size_t size, int stride, int bpp, int is_float)
@@ -329,6 +353,9 @@ static int boxes_once(const boxes_ctx *c, int op, int di, const boxset_t *bs, co
     pixman_format_code_t code; const char *fname; int bpp, is_float; uint32_t dmask;
     dest_info(di, &code, &fname, &bpp, &dmask, &is_float);
     memcpy(lib->alloc, init, lib->size); memcpy(ora->alloc, init, ora->size);
+    if (lib->acc) { dimg_scramble(lib); dimg_scramble(ora); }
+    if (lib->amap) for (int i = 0; i < AM_SIZE; i++) lib->amap_buf[i] = ora->amap_buf[i] = (uint8_t)(vf_mix((uint64_t)i, 23) >> 11);
+    uint64_t writes0 = acc_writes;
 
     /* the boxes actually passed (fill_rectangles cannot express inverted boxes) */
     pixman_box32_t boxes[8]; int nb = 0;
@@ -344,11 +371,13 @@ static int boxes_once(const boxes_ctx *c, int op, int di, const boxset_t *bs, co
     pixman_bool_t ret = api == 1 ? pixman_image_fill_rectangles((pixman_op_t)op, lib->im, color, nb, rects)
                                  : pixman_image_fill_boxes((pixman_op_t)op, lib->im, color, nb, boxes);
     vf_count_libcalls(1);
+    uint64_t writes_by_lib = acc_writes - writes0;
 
     pixman_image_t *solid = pixman_image_create_solid_fill(color);
     for (int i = 0; i < nb; i++)
         pixman_image_composite32((pixman_op_t)op, solid, NULL, ora->im, 0, 0, 0, 0, boxes[i].x1, boxes[i].y1, boxes[i].x2 - boxes[i].x1, boxes[i].y2 - boxes[i].y1);
     pixman_image_unref(solid);
+    if (lib->acc) { dimg_scramble(lib); dimg_scramble(ora); }
     if (!vf_in_confirm) { ST_ADD(oracle_composites, nb); ST_ADD(boxes_calls, 1); }
 
     char desc[600];
@@ -418,6 +447,11 @@ static int boxes_once(const boxes_ctx *c, int op, int di, const boxset_t *bs, co
             const uint8_t *g = lib->bits + (size_t)lib->stride * row, *o = ora->bits + (size_t)ora->stride * row;
             if (px_equal(g, o, bpp, x, dmask)) continue;
             uint32_t gv = bpp <= 32 ? c10_get_px(g, bpp, x) : 0, ov = bpp <= 32 ? c10_get_px(o, bpp, x) : 0;
+            if (lib->acc && writes_by_lib == 0) {
+                vf_violation("c19-fill-boxes-accessor-bypass", "%s: the destination has user read/write accessors; write_func was called 0 times and pixel (%d,%d) reads back as %#x "
+                             "through the accessors, whereas compositing the solid colour over the box gives %#x: the direct-fill shortcut wrote to the raw storage", desc, x, row, gv, ov);
+                break;
+            }
             if (lib_same_as_init_on_S) {
                 /* nothing was drawn at all: is it because no implementation of this chain can fill this depth? */
                 uint32_t scratch[8] = { 0 };
@@ -431,6 +465,13 @@ static int boxes_once(const boxes_ctx *c, int op, int di, const boxset_t *bs, co
             vf_violation("c19-fill-boxes-differs-from-composite", "%s: pixel (%d,%d): library %#x, compositing the solid colour over each box gives %#x (compared bits %#x)",
                          desc, x, row, gv, ov, dmask);
         }
+    if (lib->amap && !vf_failed()) {
+        long off = first_diff(lib->amap_buf, ora->amap_buf, AM_SIZE);
+        if (off >= 0)
+            vf_violation("c19-fill-boxes-alpha-map-ignored", "%s: the destination has an a8 alpha map at (0,0); after the call alpha-map byte (%ld,%ld) is %#04x, after compositing the "
+                         "solid colour over each box it is %#04x", desc, off % AM_STRIDE, off / AM_STRIDE - GROWS, lib->amap_buf[off], ora->amap_buf[off]);
+        else if (memcmp(lib->amap_buf, ora->amap_buf, AM_SIZE)) vf_harderr("alpha map compare");
+    }
     if (outcome) *outcome = vf_mix(vf_hash64(lib->bits, (size_t)lib->stride * IH, (uint64_t)di), (uint64_t)ret);
     return changed;
 }
@@ -459,6 +500,34 @@ static void boxes_case(uint64_t idx, void *vctx)
         if (dg[0] == 3 && dg[1] == 2 && api == 0 && (di == 11 || di == 4) && (op == 0x03 || op == 0x01) && vf_want_sample())
             vf_sample("fill_boxes(op=%#x, dest %s, boxes: %s, clip: %s) chain=%s: %d colours, %d of them change the picture; library == per-box composite on S, nothing outside S changed",
                       op, fname, bs->name, clip->name, c10_cfg_names[c->cfg], c->ncolors, nchanged);
+    }
+    free(init); dimg_free(&lib); dimg_free(&ora);
+}
+
+/* destinations behind accessors / with an alpha map: case = (box set (in bounds), clip (3), api, format (16), operator (4), wrap (2)) */
+static const int WRAP_FMTS[16] = { 0, 1, 2, 3, 4, 5, 6, 7, 11, 12, 21, 32, 8, 22, 33, 37 };
+static const int WRAP_OPS[4] = { 0x00, 0x01, 0x03, 0x0c };
+static void wrapped_case(uint64_t idx, void *vctx)
+{
+    const boxes_ctx *c = vctx;
+    int dims[6] = { NBOXSETS_INBOUNDS, 3, 2, 16, 4, 2 }, dg[6]; vf_decode(idx, dims, 6, dg);
+    const boxset_t *bs = &BOXSETS[dg[0]]; const clipdef_t *clip = &CLIPS[dg[1]]; int api = dg[2], di = WRAP_FMTS[dg[3]], op = WRAP_OPS[dg[4]], wrap = 1 + dg[5];
+    pixman_format_code_t code; const char *fname; int bpp, is_float; uint32_t dmask;
+    dest_info(di, &code, &fname, &bpp, &dmask, &is_float);
+    dimg lib, ora;
+    dimg_make(&lib, code, bpp, NULL, clip); dimg_make(&ora, code, bpp, NULL, clip);
+    dimg_wrap(&lib, wrap); dimg_wrap(&ora, wrap);
+    uint8_t *init = malloc(lib.size); fill_initial(init, lib.size, lib.stride, bpp, is_float);
+    uint64_t acc = 0, o = 0; int nchanged = 0;
+    if (vf_verbose) printf("  destination %s\n", wrap == 1 ? "with scrambling read/write accessors" : "with an a8 alpha map");
+    for (int k = 0; k < c->ncolors && !vf_failed(); k++) {
+        nchanged += boxes_once(c, op, di, bs, clip, api, &c->colors[k], &lib, &ora, init, &o);
+        acc = vf_mix(acc, o);
+    }
+    if (!vf_in_confirm) {
+        vf_count_eval((uint64_t)c->ncolors); vf_count_nontrivial((uint64_t)nchanged);
+        ST_ADD(boxes_changed, nchanged); ST_ADD(boxes_unchanged, c->ncolors - nchanged);
+        vf_outcome(vf_mix(acc, (uint64_t)wrap));
     }
     free(init); dimg_free(&lib); dimg_free(&ora);
 }
@@ -511,6 +580,7 @@ int main(int argc, char **argv)
     st = mmap(NULL, sizeof *st, PROT_READ | PROT_WRITE, MAP_SHARED | MAP_ANONYMOUS, -1, 0);
     memset(st, 0, sizeof *st);
     int th = vf_is_thorough();
+    c10_tune_malloc();
     vf_rule = "E1: fill/blt cases are single calls (bpp, x, width, height, stride, start phase within 16 bytes, row, filler) compared byte for byte with the model over the whole "
               "allocation incl. guards; fill_boxes cases are (operator, destination format, box set, clip, API, colour) compared with per-box compositing of a solid image on the "
               "defined bits of S = boxes /\\ clip /\\ bounds and with 'unchanged' everywhere else incl. padding and guard rows. evaluations = calls judged; non-trivial = calls that "
@@ -518,16 +588,16 @@ int main(int argc, char **argv)
     vf_bounds = th ? "fill: bpp {1,8,16,32} x x 0..40 x widths 0..300 bytes x h {1,2} x 3 strides x 4 phases x 2 rows x 2 fillers, bpp {4,24} x 0..8 x w 0..40; all 256/65536 fillers (8/16 bpp), 4096 (32 bpp); "
                      "blt: 16/32 bpp src x 0..8 x dst x 0..8 x widths 0..300 bytes x h x strides x phases, other depth pairs small; fill_boxes/rectangles: 53 operators x 45 destination formats x "
                      "12 box sets (4 exceed the bounds) x 5 clips x 2 APIs x 39 colours; colour sweeps: 1024 values of alpha (2 rgb settings) and of each colour channel (alpha 0/0x8000/0xffff) x "
-                     "{SRC, OVER, OVER_REVERSE, ADD} x 45 formats; all under 5 implementation chains; default chain in addition all 65536 values per swept channel x {SRC, OVER} x 16 formats "
+                     "{SRC, OVER, OVER_REVERSE, ADD} x 45 formats; all under 6 implementation chains; default chain in addition all 65536 values per swept channel x {SRC, OVER} x 16 formats "
                      "(the 12 formats of the direct-fill shortcut and 4 controls)"
                    : "fill: bpp {1,8,16,32} x x 0..20 (0..40 for 1 bpp) x widths 0..140 bytes x h {1,2} x 3 strides x 4 phases x 2 rows x 2 fillers, bpp {4,24} small; all 256/65536 fillers (8/16 bpp), 4096 (32 bpp); "
                      "blt: 16/32 bpp src x 0..4 x dst x 0..5 x widths 0..140 bytes; fill_boxes/rectangles: 53 operators x 45 destination formats x 12 box sets (4 exceed the bounds) x 5 clips x 2 APIs x 13 colours (default and "
                      "general chains; 4 colours for the other three chains); colour sweeps (default and general chains): 1024 values of alpha and of each colour channel x {SRC, OVER, OVER_REVERSE, ADD} x 45 formats; "
-                     "5 implementation chains";
+                     "6 implementation chains";
     vf_assume("byte-level little-endian pixel addressing of c10_codec.h is the meaning of 'the addressed rectangle'");
     vf_assume("the fill_boxes oracle is pixman's own compositing of a solid image (that is the property's definition); compositing itself is judged by C01/C03");
     vf_assume("src and dst of a blt are distinct buffers; overlapping blits are not specified and not explored");
-    vf_assume("destinations with accessors or alpha maps are outside the statement and not explored (the direct-fill shortcut ignores both)");
+    vf_assume("destinations behind read/write accessors or with an alpha map are explored on a reduced alphabet only (8 in-bounds box sets x 3 clips x 16 formats x {CLEAR, SRC, OVER, ADD}, default chain)");
     vf_assume("out-of-bounds boxes exceed the 11x6 image by at most 3 pixels/rows so that the overrun stays inside the harness' guard rows");
 
     /* colour lists */
@@ -560,6 +630,10 @@ int main(int argc, char **argv)
             }
             snprintf(nm, sizeof nm, "fill-boxes-%s", c10_cfg_names[cfg]);
             vf_space_run(nm, (uint64_t)bc.nboxsets * NCLIPS * 2 * NDEST * NOPS, boxes_case, &bc);
+            if (cfg == 0) {
+                snprintf(nm, sizeof nm, "fill-boxes-wrapped-dest-%s", c10_cfg_names[cfg]);
+                vf_space_run(nm, (uint64_t)NBOXSETS_INBOUNDS * 3 * 2 * 16 * 4 * 2, wrapped_case, &bc);
+            }
         }
         if (th || cfg == 0 || cfg == 4) {
             /* every chain (quick: default and general): 1024 values per swept channel, {SRC, OVER, OVER_REVERSE, ADD}, all destination formats */
